@@ -453,6 +453,10 @@ class Executor:
                     raise Infeasible()
             elif k == "field":
                 idx, fty = pr[1], pr[2]
+                if isinstance(val, RefV) and isinstance(val.v, (Agg, Lazy)) and not re.match(r"^(?:std::ptr::|core::ptr::)?(?:Unique|NonNull)<", fty) \
+                        and not (isinstance(val.v, Lazy) and strip_ref(val.v.ty)[1]):
+                    # an element handed out by value through a by-reference summary (array / vec iteration): project into the element
+                    val, key, path = val.v, None, ()
                 if isinstance(val, (Ref, RefV)) and re.match(r"^(?:std::ptr::|core::ptr::)?(?:Unique|NonNull)<", fty):
                     pass       # Box<T>.0 / Unique<T>.0: the same pointer
                 elif isinstance(val, Lazy) and strip_ref(val.ty)[1] and re.match(r"^(?:std::ptr::|core::ptr::)?(?:Unique|NonNull)<", fty):
